@@ -62,8 +62,8 @@ structure Sys where
 
 def setW (f : Nat → Worker) (w : Nat) (v : Worker) : Nat → Worker := fun k => if k = w then v else f k
 
-/-- worker → broker (two workers per broker: a worker that was abandoned and its successor) -/
-def brokerOf (w : Nat) : Nat := w / 2
+/-- worker → broker (up to 64 worker incarnations per broker: abandoned or released workers and their successors) -/
+def brokerOf (w : Nat) : Nat := w / 64
 
 def toPP (t : Tok) : PartProd.Tok := ⟨t.id, t.retries, t.isFin⟩
 
